@@ -75,8 +75,7 @@ def programs(kind, sp):
     out.append(("read2", P(r + s, "res = %s; res2 = %s + 1;" % (sp, sp), ["res", "res2"], tag=(kind, sp, "read2"))))
     if kind == "imm" or is_new or sp.startswith("HEX_REG_ALIAS_PC"):
         return out
-    if kind == "reg" and sp[1] in "stuvw":
-        return out  # source operands are never assigned in the dialect
+    # source-letter operands are assigned in a few bundled behaviours (RtV = ..., RsV = 0): the write patterns apply to them too
     pre = "" if ":" not in sp else "res = 0; "  # an explicit pair as the first token of a statement parses as a label (C17)
     out.append(("write", P(a + r, "%s%s = va;" % (pre, sp), [], tag=(kind, sp, "write"))))
     out.append(("rwr", P(a + r + s, "res = %s; %s = va; res2 = %s;" % (sp, sp, sp), ["res", "res2"], tag=(kind, sp, "rwr"))))
@@ -158,8 +157,32 @@ def check_bindings(body, ops):
             pat = ("call", "SN" if o.signed else "UN", (("num", 32), ("ccast", "st32" if o.signed else "ut32", ("call", "ISA2IMM", (("id", "hi"), ("chr", o.letter))))))
             if not any(d.expr == pat for d in body.decls):
                 errs.append("%s: expected %s(32, (%s) ISA2IMM(hi, '%s'))" % (sp, pat[1], pat[2][1][1], o.letter))
-    # READ_REG flags: a .new operand is read from the pending bank, others through `false`
-    # unless write-only (documented) -- checked dynamically by the tagged banks
+    # READ_REG flags: a .new operand is read through `true`.  A plain operand with a read side (source letters
+    # s t u v w and read-write letters x y z, single or pair) is read through `false`, whether or not this
+    # instruction also assigns it; only operands without a read side (d, e, and explicit registers / aliases the
+    # instruction wrote first) are re-read from the pending bank.
+    var_of = {}
+    for sp, o in ops.items():
+        exp = expected_resolver(o)
+        for g in got:
+            if exp and (g[0], g[1]) == exp:
+                var_of[g[2]] = (sp, o)
+    for d in body.decls:
+        if d.expr is None:
+            continue
+        for e in il.walk(d.expr):
+            if e[0] == "call" and e[1] == "READ_REG" and len(e[2]) == 3:
+                opv = e[2][1]
+                opv = opv[1] if opv[0] == "addr" else opv
+                hit = var_of.get(render(opv))
+                if not hit:
+                    continue
+                sp, o = hit
+                flag = render(e[2][2])
+                if o.new and flag != "true":
+                    errs.append("%s: a .new operand is read with flag %s" % (sp, flag))
+                if not o.new and o.kind == "reg" and o.letter[0] in "stuvwxyz" and flag != "false":
+                    errs.append("%s: a plain operand with a read side is read with the .new flag (%s)" % (sp, d.text.strip()[:120]))
     return errs
 
 
